@@ -11,7 +11,7 @@ CHECKS = {
    text="Each generated DAG is executed by the real code unoptimised and under default/multiple-input/legacy/fuse-all/fuse-only optimisers with random always/never-fuse subsets; requested arrays must be bit-identical and present in storage. A third of the recipes also save a requested array with a lazy store/to_zarr into a path or an existing array of equal/finer/coarser/unrelated chunking and request a consumer of the stored array; the target is read back with plain zarr. Held = no difference on the (recipe, optimiser) pairs listed.",
    note="Reference is cubed's own unoptimised run (a common-mode error in both is C01's business). Memory refusals under fusion-forcing optimisers are allowed by the property and not judged.", ref="3/C02"),
  "C03": dict(level="exploration", technique="runtime monitoring of allocations: tracemalloc around every task (one at a time under the harness executor, second run of each plan, excess re-measured up to 5 times), phase-resolved by wrapping zarr.Array.__getitem__/__setitem__, judged against the finalized plan's projected_mem",
-   text="A table of 42 programs covering every operation family at data-dominated chunk sizes, five geometries, three dtypes, fused/unfused, compressor None/default: every task's traced peak must stay within its operation's projected memory. Three open, mechanism-keyed findings (compressed storage buffers; previous block alive in multi-block reads; undeclared function temporaries) are matched by configuration + producing function + segment kind + ratio ceiling; two thirds of the budget run without a compressor where only the two narrower findings can match.",
+   text="A table of 46 programs covering every operation family at data-dominated chunk sizes, five geometries, three dtypes, fused/unfused, compressor None/default: every task's traced peak must stay within its operation's projected memory. Three open, mechanism-keyed findings (compressed storage buffers; previous block alive in multi-block reads; undeclared function temporaries) are matched by configuration + producing function + segment kind + ratio ceiling; two thirds of the budget run without a compressor where only the two narrower findings can match.",
    note="tracemalloc does not see C-level allocations inside codecs; an under-projection smaller than an operation's slack is invisible (maximum observed ratio per program is in the evidence).", ref="3/C03"),
  "C04": dict(level="exploration", technique="runtime monitoring at the admission boundary: wrapping executor entry counter + store tracer + work-directory snapshot around compute/store/to_zarr, judged against the finalized plan's own per-op projected memory at allowed = P-1, P, P+1; post-condition wrappers (icontract on fuse, hand-written on the varargs fuse_multiple) for fused projected memory",
    text="For generated programs under both optimiser settings and several reserved_mem values the budget is set just below, at and above the plan's own maximum projected memory; an over-budget plan must be refused with no executor entry, no store mutation and no new file (eager and lazy store forms included); a plan within budget must not get the memory error; the default optimiser must not turn a fitting plan into a non-fitting one; fused ops must report at least the memory of the ops they replace.",
